@@ -36,10 +36,16 @@ typedef PTreeAVLNode NODE;
 #endif
 #define B(x) ((PTreeBaseNode *) (x))
 
-#define KEY(rank, id) ((ppointer) (size_t) (((rank) << 8) | (id)))
-#define VAL(rank, id) ((ppointer) (size_t) (0x10000 | ((rank) << 8) | (id)))
-#define RANK(p) ((int) ((((size_t) (p)) >> 8) & 0xff))
-#define ID(p) ((int) (((size_t) (p)) & 0xff))
+/* The NULL pointer is a legal user key and a legal user value (ptree.h puts no restriction; the library's own tests use
+ * PINT_TO_POINTER(0)).  The harness may declare ONE key token (zk_rank, zk_id) and ONE value token (zv_rank, zv_id) to be
+ * represented by NULL (0 = none); the comparator still orders by rank.  Set first thing in harness(). */
+static int zk_rank, zk_id, zv_rank, zv_id;
+#define KEY(rank, id) (((rank) == zk_rank && (id) == zk_id) ? (ppointer) NULL : (ppointer) (size_t) (((rank) << 8) | (id)))
+#define VAL(rank, id) (((rank) == zv_rank && (id) == zv_id) ? (ppointer) NULL : (ppointer) (size_t) (0x10000 | ((rank) << 8) | (id)))
+#define RANK(p) ((p) == NULL ? zk_rank : (int) ((((size_t) (p)) >> 8) & 0xff))     /* of a key */
+#define ID(p) ((p) == NULL ? zk_id : (int) (((size_t) (p)) & 0xff))
+#define VRANK(p) ((p) == NULL ? zv_rank : (int) ((((size_t) (p)) >> 8) & 0xff))    /* of a value */
+#define VID(p) ((p) == NULL ? zv_id : (int) (((size_t) (p)) & 0xff))
 #define ISVAL(p) ((int) ((((size_t) (p)) >> 16) & 1))
 #define ID_PROBE (IDMAX + 1) /* identity of keys only used for searching (remove / lookup argument), never stored */
 
@@ -47,8 +53,11 @@ typedef PTreeAVLNode NODE;
  * two sizes the tree code asks for are allocated as TYPED objects (CBMC then keeps struct fields
  * as separate symbols instead of a byte array); any other size is a harness error ---------------- */
 static int vm_live;
+static int fail_node_alloc;    /* nonzero: requests for a node fail (p_malloc0 returns NULL) */
+static int failed_allocs;
 static ppointer tm_malloc(psize n) {
   void *p;
+  if (fail_node_alloc && n == sizeof(NODE)) { failed_allocs++; return NULL; }
   if (n == sizeof(NODE)) p = malloc(sizeof(NODE));
   else if (n == sizeof(PTree)) p = malloc(sizeof(PTree));
   else { VASSERT(0, "harness: tree code allocates only nodes of its own type and the tree object"); p = malloc(n); }
@@ -76,6 +85,8 @@ static int cmp_calls, cmp_mag = 1;
 static int phase;                          /* which API call of the harness is running (index into kd/vd) */
 static unsigned char kd[NPHASE][NK + 1][IDMAX + 2], vd[NPHASE][NK + 1][IDMAX + 2];   /* destroy-notifier call counts [phase][rank][id] */
 static int nd_calls;
+/* notifier configuration (NEWMODE 2: both, 3: key notifier only, 4: value notifier only, 5: symbolic choice; 0/1: none) */
+static _Bool has_kn, has_vn;
 
 static pint cmp3(pconstpointer a, pconstpointer b, ppointer data) {
   cmp_calls++;
@@ -94,13 +105,15 @@ static pint cmp3(pconstpointer a, pconstpointer b, ppointer data) {
 
 /* ---- destroy notifiers -------------------------------------------------------------------------- */
 static void key_destroyed(ppointer k) {
-  VASSERT(!ISVAL(k) && RANK(k) >= 1 && RANK(k) <= NK && ID(k) >= 1 && ID(k) <= IDMAX, "key notifier gets a key that was given to the tree");
+  VASSERT(has_kn, "key notifier only called when one was given");
+  VASSERT((k == NULL || !ISVAL(k)) && RANK(k) >= 1 && RANK(k) <= NK && ID(k) >= 1 && ID(k) <= IDMAX, "key notifier gets a key that was given to the tree");
   kd[phase][RANK(k)][ID(k)]++;
   nd_calls++;
 }
 static void val_destroyed(ppointer v) {
-  VASSERT(ISVAL(v) && RANK(v) >= 1 && RANK(v) <= NK && ID(v) >= 1 && ID(v) <= IDMAX, "value notifier gets a value that was given to the tree");
-  vd[phase][RANK(v)][ID(v)]++;
+  VASSERT(has_vn, "value notifier only called when one was given");
+  VASSERT((v == NULL || ISVAL(v)) && VRANK(v) >= 1 && VRANK(v) <= NK && VID(v) >= 1 && VID(v) <= IDMAX, "value notifier gets a value that was given to the tree");
+  vd[phase][VRANK(v)][VID(v)]++;
   nd_calls++;
 }
 
@@ -201,6 +214,16 @@ static void check_post_state(void) {
 #endif
 }
 
+/* reachability of every notifier configuration when it is chosen symbolically */
+static void witness_notifier_config(void) {
+#if NEWMODE == 5
+  if (has_kn && has_vn) VWITNESS("both notifiers given");
+  if (has_kn && !has_vn) VWITNESS("key notifier only");
+  if (!has_kn && has_vn) VWITNESS("value notifier only");
+  if (!has_kn && !has_vn) VWITNESS("p_tree_new_full without notifiers");
+#endif
+}
+
 static void make_tree(void) {
   vm_alloc_install();
 #if NEWMODE == 0
@@ -208,7 +231,12 @@ static void make_tree(void) {
 #elif NEWMODE == 1
   tree = p_tree_new_with_data(TREETYPE, cmp3, UDATA);
 #else
-  tree = p_tree_new_full(TREETYPE, cmp3, UDATA, key_destroyed, val_destroyed);
+#if NEWMODE == 5
+  has_kn = ND_BOOL(); has_vn = ND_BOOL();
+#else
+  has_kn = (NEWMODE == 2 || NEWMODE == 3); has_vn = (NEWMODE == 2 || NEWMODE == 4);
+#endif
+  tree = p_tree_new_full(TREETYPE, cmp3, UDATA, has_kn ? key_destroyed : NULL, has_vn ? val_destroyed : NULL);
 #endif
   VASSERT(tree != NULL, "tree created");
   VASSERT(p_tree_get_type(tree) == TREETYPE && p_tree_get_nnodes(tree) == 0, "new tree: type as requested, empty");
